@@ -400,6 +400,9 @@ class BehavioralRTLIRToVVisitorL1( bir.BehavioralRTLIRNodeVisitor ):
       raise VerilogTranslationError( s.blk, node,
           f"unrecognized operator {op_t} for reduce method!" )
     value = s.visit( node.value )
+    # unary reduction binds tighter than any binary operator: bracket compound operands
+    if isinstance( node.value, ( bir.IfExp, bir.UnaryOp, bir.BinOp, bir.Compare ) ):
+      value = f"( {value} )"
     op = reduce_ops[ op_t ]
     return f"( {op} {value} )"
 
